@@ -40,7 +40,13 @@ BLOBS = {"Blob": ("b:", 16), "Blob3": ("b3:", 3), "Blob20": ("b20:", 20), "Blob7
 
 
 def prepare(tier):
-    return {"ex_vm": build.executor("asan", "ex_vm")}
+    # two compilers / optimisation levels, chosen per case (see c09)
+    return {"ex_vm": build.executor("asan", "ex_vm"), "ex_vm_plain": build.executor("plain", "ex_vm")}
+
+
+def _exe(case):
+    """a case without a "cfg" field (older replay files) runs in the ASan build; otherwise the field decides"""
+    return "ex_vm_plain" if case.get("cfg") == "plain" else "ex_vm"
 
 
 def _blob(tn):
@@ -184,7 +190,7 @@ def _case(draw):
 
 
 def strategy(tier):
-    return _case()
+    return st.tuples(_case(), st.sampled_from(["asan", "asan", "plain"])).map(lambda t: dict(t[0], cfg=t[1]))
 
 
 _DEF = {"Int": "i:7", "Float": "f:3ff0000000000000", "String": "s:7a7a7a7a7a", "Blob": "b:" + "11" * 16,
@@ -506,7 +512,7 @@ def run_case(ctx, case):
                     P.add("len %%%d" % s_, expect_ok(str(len(last) + (0 if (77 if et == "Int" else "6e6577") in last else 1))))
                 P.add("del %0")
                 P.add("del %1")
-                fail, obs = P.run(ctx.executor("ex_vm"))
+                fail, obs = P.run(ctx.executor(_exe(case)))
                 return Result(fail, case["items"][0] != case["items"][1], ev, None)
             if ck == "Tuple":
                 for s_, its in ((0, case["items"][0]), (1, case["items"][1])):
@@ -594,7 +600,7 @@ def run_case(ctx, case):
         ev.append("view=" + case["kind"])
     else:
         raise HarnessBug(fam)
-    fail, obs = P.run(ctx.executor("ex_vm"))
+    fail, obs = P.run(ctx.executor(_exe(case)))
     if not fail:
         for chk in post:
             m = chk()
